@@ -564,6 +564,91 @@ pub fn run(tier: Tier) -> i32 {
             run.violate(Some(b.key.clone()), b.why.clone(), json!({"driver":"STR-numbers","spelling": b.spelling, "detail": b.why}));
         }
     }
+    // ---- escape sequences, well-formed or not: every text `\` + w, w over an alphabet of escape-relevant characters
+    // up to length 4 (5 thorough), in double and single quotes and as f-string text, against a reference decoder of
+    // the documented rules (\\ \/ \b \f \n \r \t, \xHH, \u{H…} of a code point, the quote; anything else: the character
+    // itself, the rest of the text untouched)
+    {
+        const ESC: &[char] = &['x', 'u', '{', '}', '+', '-', '4', 'a', 'g', '0', 'n', 'D', '8'];
+        fn decode(body: &str, quote: char) -> String {
+            let cs: Vec<char> = body.chars().collect();
+            let mut out = String::new();
+            let mut i = 0;
+            while i < cs.len() {
+                if cs[i] != '\\' || i + 1 >= cs.len() {
+                    out.push(cs[i]);
+                    i += 1;
+                    continue;
+                }
+                let c = cs[i + 1];
+                i += 2;
+                match c {
+                    '\\' | '/' => out.push(c),
+                    'b' => out.push('\u{8}'),
+                    'f' => out.push('\u{c}'),
+                    'n' => out.push('\n'),
+                    'r' => out.push('\r'),
+                    't' => out.push('\t'),
+                    'x' if i + 1 < cs.len() && cs[i].is_ascii_hexdigit() && cs[i + 1].is_ascii_hexdigit() => {
+                        let v = u32::from_str_radix(&cs[i..i + 2].iter().collect::<String>(), 16).unwrap();
+                        out.push(char::from_u32(v).unwrap());
+                        i += 2;
+                    }
+                    'u' if i < cs.len() && cs[i] == '{' => {
+                        let digits: String = cs[i + 1..].iter().take_while(|c| c.is_ascii_hexdigit()).collect();
+                        let close = i + 1 + digits.chars().count();
+                        let ch = if !digits.is_empty() && digits.len() <= 6 && close < cs.len() && cs[close] == '}' { u32::from_str_radix(&digits, 16).ok().and_then(char::from_u32) } else { None };
+                        match ch {
+                            Some(ch) => {
+                                out.push(ch);
+                                i = close + 1;
+                            }
+                            None => out.push('u'),
+                        }
+                    }
+                    c if c == quote => out.push(c),
+                    other => out.push(other),
+                }
+            }
+            out
+        }
+        let maxw = tier.pick(4, 5);
+        let mut words: Vec<String> = vec![];
+        for len in 1..=maxw {
+            for mut i in 0..(ESC.len() as u64).pow(len as u32) {
+                let mut w = String::new();
+                for _ in 0..len {
+                    w.push(ESC[(i % ESC.len() as u64) as usize]);
+                    i /= ESC.len() as u64;
+                }
+                // only words whose first character makes the backslash the start of an escape form of interest
+                if w.starts_with('x') || w.starts_with('u') || len <= 2 {
+                    words.push(w);
+                }
+            }
+        }
+        let outs = par_map(&words, || (), |_, w| {
+            let mut bad = vec![];
+            for (q, name) in [('"', "double-quoted"), ('\'', "single-quoted")] {
+                let body = format!("a\\{w}z");
+                let sp = format!("{q}{body}{q}");
+                let want = decode(&body, q);
+                match parsed_value(&sp) {
+                    Ok(got) if got == want => {}
+                    Ok(got) => bad.push(Bad { key: format!("escape-sequence-denotes-other-value:{}", if w.starts_with('x') { "x" } else if w.starts_with('u') { "u" } else { "other" }), why: format!("{name} {sp} should denote {want:?} (documented escape rules), parses to {got:?}"), value: want.clone(), spelling: sp }),
+                    Err(e) => bad.push(Bad { key: "escape-sequence-not-accepted".into(), why: format!("{sp}: {e}"), value: want.clone(), spelling: sp }),
+                }
+            }
+            bad
+        });
+        for bad in outs {
+            run.validated += 2;
+            run.count("escape_words", 1);
+            for b in bad {
+                run.violate(Some(b.key.clone()), b.why.clone(), json!({"driver":"STR-escapes","value": b.value, "spelling": b.spelling, "detail": b.why}));
+            }
+        }
+    }
     // ---- other literal kinds: structure invariance against a benign literal of the same kind
     for d in all_dialects() {
         for (lit, text) in OTHER {
@@ -656,6 +741,19 @@ pub fn run(tier: Tier) -> i32 {
 }
 
 pub fn replay(v: &J) -> i32 {
+    // spelling-level records: the spelling must parse to the recorded value
+    if let (Some(value), Some(sp), Some("STR" | "STR-escapes")) = (v["value"].as_str(), v["spelling"].as_str(), v["driver"].as_str()) {
+        return match parsed_value(sp) {
+            Ok(got) if got == value => {
+                println!("OK {sp} parses to {got:?}");
+                0
+            }
+            other => {
+                println!("FAIL {sp} should denote {value:?}: {other:?}");
+                1
+            }
+        };
+    }
     println!("value {:?} spelling {:?}: re-run ./check C08 quick", v["value"], v["spelling"]);
     1
 }
